@@ -1,7 +1,8 @@
 // Harness for C19 — coroutine storage policies (coro_storage.h, alloca_storage.h, with_allocator.h).
 //
 // Three kinds of cases (see checks/c19.py and lean/Drivers/C19.lean for the grammar):
-//   case <id> seq <policy> ex=<n> fs=<s0,s1,s2,s3> [p=<param>]   sequential: raw alloc/dealloc and real coroutines
+//   case <id> seq <policy> ex=<n> fs=<s0,...,s7> [p=<param>]    sequential: raw alloc/dealloc and real coroutines (kinds 0-3
+//                                                                free functions, 4-7 non-static member functions)
 //   case <id> sched <nthreads>                                   reusable_storage_mtsafe, logical threads = real OS
 //                                                                threads under a baton, one step per hooked operation
 //                                                                (_busy exchange/store, operator new/delete)
